@@ -27,7 +27,7 @@ BASIC_ASSUME = [
 
 @prop("C03")
 def c03(tier):
-    L = 6 if tier == "quick" else 10
+    L = 5 if tier == "quick" else 9
     N = 16 if tier == "quick" else 28
     obs = [B.tables_ob("C03", d, n) for d, n in B.DIALECTS]
     obs += [B.line_ob("C03", d, n, "CONFORM", L) for d, n in B.DIALECTS]
@@ -37,7 +37,7 @@ def c03(tier):
 
 @prop("C08")
 def c08(tier):
-    L = 6 if tier == "quick" else 10
+    L = 5 if tier == "quick" else 9
     N = 20 if tier == "quick" else 40
     obs = [B.line_ob("C08", d, n, "SAFE", L) for d, n in B.DIALECTS]
     obs += [B.framing_ob("C08", e, "SAFE", N) for e in ("BE", "LE")]
@@ -47,7 +47,7 @@ def c08(tier):
 
 @prop("C09")
 def c09(tier):
-    L = 6 if tier == "quick" else 10
+    L = 5 if tier == "quick" else 9
     N = 12 if tier == "quick" else 20
     obs = [B.line_ob("C09", d, n, "REJECT", L) for d, n in B.DIALECTS]
     obs += [B.framing_ob("C09", e, "FRAME", N, nfiles=2) for e in ("BE", "LE")]
